@@ -100,6 +100,10 @@ fn arb_scaled_value() -> impl Strategy<Value = f64> {
         }),
         2 => (0u64..32 * 1024).prop_map(|x| x as f64 / (1024.0 * 1024.0)), // the sub-1/32 linear region, finer than a bucket
         1 => Just(0.0f64),
+        // clusters of DISTINCT values only a few ulps apart (and tiny values next to zero): equal
+        // values merge, near-equal ones must not
+        3 => (prop::sample::select(vec![0.1f64 + 0.2, 0.3, 1.0 / 32.0, 1.0, 0.5, 1.9999999999999998, 3.0, 1000.5, 0.0, 1e-300, 1e-16, 5e-324]), 0u64..4)
+            .prop_map(|(b, k)| f64::from_bits(b.to_bits() + k)),
         2 => (0u64..100_000).prop_map(|x| x as f64),
         1 => (0.0f64..8.79e12).prop_map(|x| x), // below 2^43
         2 => (-20.0f64..43.0).prop_map(|e| 2f64.powf(e).min(8.79e12)),
@@ -340,6 +344,13 @@ pub fn check(case: &Case) -> CaseResult {
     if meant.iter().any(|m| m.1 > 1) {
         classes.push("repeated-observation");
     }
+    {
+        let mut vs: Vec<f64> = meant.iter().map(|m| m.0).collect();
+        vs.sort_by(|a, b| a.partial_cmp(b).unwrap());
+        if vs.windows(2).any(|w| w[0] != w[1] && (w[1] - w[0]).abs() < 1e-12 * w[1].abs().max(1e-300)) {
+            classes.push("distinct-values-few-ulps-apart");
+        }
+    }
     if case.inputs.iter().any(|i| matches!(i, Input::Rep { occ: 0, .. })) {
         classes.push("zero-occurrences");
     }
@@ -478,7 +489,7 @@ pub fn run(ctx: &mut Ctx) {
             if q { 6_000 } else { 300_000 },
         )
         .threads(ctx.tier.pick(4, 8))
-        .mandatory(&["bucket-boundary", "repeated-observation", "concurrent-recording", "sort-and-merge-checked", "zero-occurrences"]),
+        .mandatory(&["bucket-boundary", "repeated-observation", "concurrent-recording", "sort-and-merge-checked", "zero-occurrences", "distinct-values-few-ulps-apart"]),
         move || {
             let max = if q { 300 } else { 2000 };
             (
